@@ -6,15 +6,47 @@
 (* Attributes structures (kind tmpl) and the responses no longer carry any. *)
 EXTENDS KmipSchemaCore
 
-Tmpl(n, t, c) == F(n, t, "tmpl", "", c, 10, 20)
+Tmpl4(n, t, c) == F(n, t, "tmpl", "", c, 10, 20)
 
 SchemaPayloads4T == [
   CreateRequestPayload |-> <<
       ReqE("object_type", "OBJECT_TYPE", "ObjectType"),
-      Tmpl("template_attribute", "TEMPLATE_ATTRIBUTE", "1"),
-      Since(OptS("protection_storage_masks", "PROTECTION_STORAGE_MASKS", "ProtectionStorageMasks"), 20) >>
+      Tmpl4("template_attribute", "TEMPLATE_ATTRIBUTE", "1"),
+      Since(OptS("protection_storage_masks", "PROTECTION_STORAGE_MASKS", "ProtectionStorageMasks"), 20) >>,
+  \* 2.0: Object Type, Unique Identifier only
+  CreateResponsePayload |-> <<
+      ReqE("object_type", "OBJECT_TYPE", "ObjectType"),
+      Req("unique_identifier", "UNIQUE_IDENTIFIER", "text"),
+      Until(Tmpl4("template_attribute", "TEMPLATE_ATTRIBUTE", "?"), 14) >>,
+  CreateKeyPairRequestPayload |-> <<
+      Tmpl4("common_template_attribute", "COMMON_TEMPLATE_ATTRIBUTE", "?"),
+      Tmpl4("private_key_template_attribute", "PRIVATE_KEY_TEMPLATE_ATTRIBUTE", "?"),
+      Tmpl4("public_key_template_attribute", "PUBLIC_KEY_TEMPLATE_ATTRIBUTE", "?"),
+      Since(OptS("common_protection_storage_masks", "COMMON_PROTECTION_STORAGE_MASKS", "ProtectionStorageMasks"), 20),
+      Since(OptS("private_protection_storage_masks", "PRIVATE_PROTECTION_STORAGE_MASKS", "ProtectionStorageMasks"), 20),
+      Since(OptS("public_protection_storage_masks", "PUBLIC_PROTECTION_STORAGE_MASKS", "ProtectionStorageMasks"), 20) >>,
+  \* 2.0: the two identifiers only
+  CreateKeyPairResponsePayload |-> <<
+      Req("private_key_unique_identifier", "PRIVATE_KEY_UNIQUE_IDENTIFIER", "text"),
+      Req("public_key_unique_identifier", "PUBLIC_KEY_UNIQUE_IDENTIFIER", "text"),
+      Until(Tmpl4("private_key_template_attribute", "PRIVATE_KEY_TEMPLATE_ATTRIBUTE", "?"), 14),
+      Until(Tmpl4("public_key_template_attribute", "PUBLIC_KEY_TEMPLATE_ATTRIBUTE", "?"), 14) >>,
+  \* managed_object: exactly one of Certificate, Symmetric Key, Private Key, Public Key, Split Key, Template (1.x),
+  \* Secret Data, Opaque Object, under the class's own tag.  The specification also allows PGP Key (since 1.2) and
+  \* Certificate Request (2.0); the implementation has no class for either (left out).
+  RegisterRequestPayload |-> <<
+      ReqE("object_type", "OBJECT_TYPE", "ObjectType"),
+      Tmpl4("template_attribute", "TEMPLATE_ATTRIBUTE", "1"),
+      F("managed_object", "", "union", "", "1", 10, 20),
+      Since(OptS("protection_storage_masks", "PROTECTION_STORAGE_MASKS", "ProtectionStorageMasks"), 20) >>,
+  \* 2.0: Unique Identifier only
+  RegisterResponsePayload |-> <<
+      Req("unique_identifier", "UNIQUE_IDENTIFIER", "text"),
+      Until(Tmpl4("template_attribute", "TEMPLATE_ATTRIBUTE", "?"), 14) >>
 ]
 ClassTagPayloads4 == [
-  CreateRequestPayload |-> "REQUEST_PAYLOAD" ]
+  CreateRequestPayload |-> "REQUEST_PAYLOAD", CreateResponsePayload |-> "RESPONSE_PAYLOAD",
+  CreateKeyPairRequestPayload |-> "REQUEST_PAYLOAD", CreateKeyPairResponsePayload |-> "RESPONSE_PAYLOAD",
+  RegisterRequestPayload |-> "REQUEST_PAYLOAD", RegisterResponsePayload |-> "RESPONSE_PAYLOAD" ]
 ClassSincePayloads4 == [ x \in {} |-> <<10, 20>> ]
 =============================================================================
